@@ -492,6 +492,10 @@ func (ka *sm2ECDHEKeyAgreement) generateClientKeyExchange(hs *clientHandshakeSta
 	}
 
 	// 使用客户端加密密钥对进行SM2密钥交换
+	// 服务端未发送 CertificateRequest 时客户端没有选出加密证书，ECDHE 无法继续
+	if hs.encCert == nil {
+		return nil, nil, errors.New("dtlcp: ECDHE key exchange needs the client's encryption certificate, but the server did not request certificates")
+	}
 	encPriv := hs.encCert.PrivateKey
 	switch prvKey := encPriv.(type) {
 	case SM2KeyAgreement:
